@@ -297,6 +297,10 @@ func (c *Variant) SetAsObject(value any) {
 		v, _ := c.value.(*Variant)
 		c.typ = v.typ
 		c.value = v.value
+		// An array variant keeps its own copy of the list
+		if a, ok := v.value.([]*Variant); ok {
+			c.value = append([]*Variant{}, a...)
+		}
 	default:
 		c.typ = Object
 	}
